@@ -1,6 +1,7 @@
 import CM.Ops.Refs
 import CM.Model.Stream
 import CM.Props.C01Contract
+import CM.Proofs.BlocksSpansStream
 namespace CM.Ops
 open CM CM.Model
 
@@ -49,6 +50,17 @@ def lpcontractOp : Op
     | _, _, _ => bad
   | _ => bad
 
-def blocksOps : List (String × Op) := [("blocks", blocksOp), ("lpcontract", lpcontractOp)]
+/-- `spanshyp <inputHex> <ext> <fold>` → whether the hypothesis of `drain_spans` (C02, block half) holds on this input:
+    the `RefDefSpansOK` check never fails along the in-memory run of the checked block parser. -/
+def spanshypOp : Op
+  | [input, ext, fold] =>
+    match Bytes.ofHex input, parsePairs ext, parseFold fold with
+    | some inp, some e, some ft =>
+      let x : PExt := { ext := { unescape := fun s => (e.lookup s).getD s }, fold := fun b => foldWith ft b 0 }
+      if CM.Proofs.BSp.isRefDefFail (drain (CM.Proofs.BSp.blocksLPc x) (inp.length + 8) (memParser inp) []).2.1 then "refdef-spans-fail" else "ok"
+    | _, _, _ => bad
+  | _ => bad
+
+def blocksOps : List (String × Op) := [("blocks", blocksOp), ("lpcontract", lpcontractOp), ("spanshyp", spanshypOp)]
 
 end CM.Ops
